@@ -1,4 +1,4 @@
 From Coq Require Import Extraction ExtrOcamlBasic ExtrOcamlString.
 From GW Require Import Base ClientTotal.
 Extraction Language OCaml.
-Extraction "model_c14.ml" run model_out model_agrees spec_ok must_fail well_formed needs_207 spec_ms vcard_decoder_panics vcard_decoder_total decode_pairs pairs_agree pairs_spec_ok run_meta spec_meta meta_agrees meta_spec_ok.
+Extraction "model_c14.ml" run model_out model_agrees spec_ok must_fail well_formed needs_207 spec_ms vcard_decoder_panics vcard_decoder_total decode_pairs pairs_agree pairs_spec_ok run_meta spec_meta meta_agrees meta_spec_ok ambiguous spec_ok_relaxed.
